@@ -29,7 +29,11 @@ def run_seed(seed: Path, props, tier):
             r = subprocess.run([str(VERIF / 'bin/vcheck'), p, '--tier', tier, '--repo', str(tmp), '--no-write',
                                 '--no-selfcheck'], capture_output=True, text=True)
             lines = [l for l in r.stdout.splitlines() if l.startswith(('VIOLATION', '  rule', '  key', '  why', 'ANALYSIS-ERROR'))]
-            out[p] = (r.returncode, '\n      '.join(lines[:12]))
+            rc = r.returncode
+            if rc == 1 and 'VIOLATION property=' not in r.stdout:
+                rc = 3          # exit 1 without a VIOLATION line is a crash, not a detection
+                lines = (r.stdout + r.stderr).splitlines()[-6:]
+            out[p] = (rc, '\n      '.join(lines[:12]))
         return seed.name, out
     finally:
         shutil.rmtree(tmp, ignore_errors=True)
